@@ -263,7 +263,7 @@ class FutureImplBase : private FutureImplResultMember<Result> {
 
     ThenChain* scheduleDestroyAndGetNext() {
       invoke(impl, schedulable);
-      constexpr size_t kImplSize = static_cast<size_t>(nextPow2(sizeof(this)));
+      constexpr size_t kImplSize = static_cast<size_t>(nextPow2(sizeof(ThenChain)));
       auto* ret = this->next;
       deallocSmallBuffer<kImplSize>(this);
       return ret;
